@@ -17,12 +17,12 @@ package security
 
 import (
 	"fmt"
-	"sort"
 	"strings"
 	"testing"
 	"time"
 
 	"github.com/basekick-labs/arc/internal/verifkit"
+	"github.com/basekick-labs/arc/internal/verifkit/replaytl"
 	"pgregory.net/rapid"
 )
 
@@ -33,22 +33,10 @@ const (
 	c26Secret  = "verif-cluster-secret"
 	c26Cluster = "verif-cluster"
 	c26Hub     = "hub-1"
-	c26Sec     = int64(time.Second)
 	c26Base    = int64(1790000000) // unix seconds
 )
 
-type c26Msg struct {
-	Type    string `json:"type"`
-	Sender  string `json:"sender"`
-	Nonce   string `json:"nonce"`
-	TS      int64  `json:"signed_ts"`
-	Payload string `json:"payload"`
-	MAC     string `json:"-"`
-}
-
-func (m *c26Msg) key() string {
-	return m.Type + "|" + m.Sender + "|" + m.Nonce + "|" + fmt.Sprint(m.TS) + "|" + m.Payload
-}
+type c26Msg = replaytl.Msg
 
 func c26Sign(m *c26Msg) error {
 	var err error
@@ -98,202 +86,45 @@ func c26Deliver(nc *NonceCache, m *c26Msg, tol time.Duration) bool {
 	return false
 }
 
-func c26SitesOf(cache string) []verifC26Site {
-	var out []verifC26Site
+func c26Sites() []replaytl.Site {
+	out := make([]replaytl.Site, 0, len(verifC26Sites))
 	for _, s := range verifC26Sites {
-		if s.Cache == cache {
-			out = append(out, s)
-		}
+		out = append(out, replaytl.Site{Type: s.Type, Cache: s.Cache, Origin: s.Origin, Tolerance: s.Tolerance, TTL: s.TTL, TolExpr: s.TolExpr, TTLExpr: s.TTLExpr})
 	}
 	return out
-}
-
-func c26Caches() []string {
-	seen := map[string]bool{}
-	var out []string
-	for _, s := range verifC26Sites {
-		if !seen[s.Cache] {
-			seen[s.Cache] = true
-			out = append(out, s.Cache)
-		}
-	}
-	return out
-}
-
-type c26Event struct {
-	At  int64 // clock, unix ns
-	Msg int   // index into msgs
-	Why string
-}
-
-func c26Fmt(ns int64) string {
-	return time.Unix(0, ns).UTC().Format("15:04:05.000000000")
-}
-
-func c26InWindow(nowNs, ts int64, tol time.Duration) bool {
-	d := nowNs/c26Sec - ts // the validators work on whole seconds (time.Now().Unix())
-	if d < 0 {
-		d = -d
-	}
-	return d <= int64(tol/time.Second)
-}
-
-// c26Frac draws a sub-second offset with mass at 0, the last nanosecond and the middle.
-func c26Frac(t *rapid.T, label string) int64 {
-	switch rapid.IntRange(0, 4).Draw(t, label+"Kind") {
-	case 0:
-		return 0
-	case 1:
-		return c26Sec - 1
-	case 2:
-		return c26Sec / 2
-	}
-	return rapid.Int64Range(0, c26Sec-1).Draw(t, label)
-}
-
-// c26Delay draws a replay delay (ns after the first receipt) with mass at the nonce
-// TTL and at twice the tolerance (+-1 s, +-1 ns), and at the last instant the signed
-// timestamp is still fresh.
-func c26Delay(t *rapid.T, tol, ttl time.Duration, t0, ts int64) (int64, string) {
-	pm := int64(rapid.IntRange(-1, 1).Draw(t, "pm"))
-	unit := c26Sec
-	us := "s"
-	if rapid.Bool().Draw(t, "pmNs") {
-		unit, us = 1, "ns"
-	}
-	switch rapid.IntRange(0, 7).Draw(t, "delayKind") {
-	case 0:
-		return rapid.Int64Range(0, 2*c26Sec).Draw(t, "immediate"), "immediately"
-	case 1:
-		return int64(ttl) + pm*unit, fmt.Sprintf("TTL%+d%s", pm, us)
-	case 2:
-		return 2*int64(tol) + pm*unit, fmt.Sprintf("2*tolerance%+d%s", pm, us)
-	case 3:
-		return int64(tol) + pm*unit, fmt.Sprintf("tolerance%+d%s", pm, us)
-	case 4: // last instant at which the signed timestamp is still inside the window (+-)
-		edge := (ts+int64(tol/time.Second)+1)*c26Sec - 1
-		return edge - t0 + pm*unit, fmt.Sprintf("window-edge%+d%s", pm, us)
-	case 5:
-		return 2*int64(tol) + c26Sec + pm*unit, fmt.Sprintf("2*tolerance+1s%+d%s", pm, us)
-	}
-	return rapid.Int64Range(0, 3*int64(ttl)).Draw(t, "delay"), "uniform"
 }
 
 func TestVerifC26_ReplayTimeline(t *testing.T) {
 	defer VerifSetClock(time.Time{})
-	if len(verifC26Sites) == 0 {
+	sites := c26Sites()
+	if len(sites) == 0 {
 		t.Fatalf("harness: no nonce-protected call sites extracted")
 	}
-	caches := c26Caches()
 	excl := verifkit.Excluded(kfC26TTL)
 	rapid.Check(t, func(t *rapid.T) {
-		cache := caches[rapid.IntRange(0, len(caches)-1).Draw(t, "cache")]
-		sites := c26SitesOf(cache)
-		site := sites[rapid.IntRange(0, len(sites)-1).Draw(t, "site")]
-		tol, ttl := site.Tolerance, site.TTL
-		tolSec := int64(tol / time.Second)
-
-		t0 := (c26Base+rapid.Int64Range(0, 1_000_000).Draw(t, "t0sec"))*c26Sec + c26Frac(t, "t0frac")
-		// the cache exists before the first receipt (lastEvict starts at construction)
-		pre := []int64{0, 30 * c26Sec, 61 * c26Sec, 1000 * c26Sec}[rapid.IntRange(0, 3).Draw(t, "cacheAge")]
-		VerifSetClock(time.Unix(0, t0-pre))
-		nc := NewNonceCache(ttl)
-
-		// signed-timestamp offset: [-T-2s, T+2s] with mass at +-T and 0
-		var delta int64
-		switch rapid.IntRange(0, 5).Draw(t, "deltaKind") {
-		case 0:
-			delta = 0
-		case 1:
-			delta = tolSec + int64(rapid.IntRange(-2, 2).Draw(t, "dEdge"))
-		case 2:
-			delta = -tolSec + int64(rapid.IntRange(-2, 2).Draw(t, "dEdge"))
-		default:
-			delta = rapid.Int64Range(-tolSec-2, tolSec+2).Draw(t, "delta")
-		}
-		senders := []string{"node-a", "node-b"}
-		nonces := []string{"4e6f6e6365", "6f74686572"}
-		msgs := []*c26Msg{{Type: site.Type, Sender: senders[0], Nonce: nonces[0], TS: t0/c26Sec + delta, Payload: "p0"}}
-		events := []c26Event{{At: t0, Msg: 0, Why: "first receipt"}}
-		for i, n := 0, rapid.IntRange(1, 3).Draw(t, "replays"); i < n; i++ {
-			d, why := c26Delay(t, tol, ttl, t0, msgs[0].TS)
-			if d < 0 {
-				d = 0
-			}
-			events = append(events, c26Event{At: t0 + d, Msg: 0, Why: "replay after " + why})
-		}
-		// other traffic in the same cache: same/other sender, same/other nonce, either
-		// message type of the cache; drives the lazy eviction sweep and key collisions
-		for i, n := 0, rapid.IntRange(0, 4).Draw(t, "noise"); i < n; i++ {
-			s := sites[rapid.IntRange(0, len(sites)-1).Draw(t, "nSite")]
-			at := t0 + rapid.Int64Range(0, 3*int64(ttl)).Draw(t, "nAt")
-			m := &c26Msg{Type: s.Type, Sender: senders[rapid.IntRange(0, 1).Draw(t, "nSender")],
-				Nonce: nonces[rapid.IntRange(0, 1).Draw(t, "nNonce")], Payload: fmt.Sprintf("n%d", i),
-				TS: at/c26Sec + rapid.Int64Range(-tolSec-1, tolSec+1).Draw(t, "nDelta")}
-			msgs = append(msgs, m)
-			events = append(events, c26Event{At: at, Msg: len(msgs) - 1, Why: "other traffic"})
-			if rapid.Bool().Draw(t, "nReplay") {
-				d, why := c26Delay(t, tol, ttl, at, m.TS)
-				if d < 0 {
-					d = 0
-				}
-				events = append(events, c26Event{At: at + d, Msg: len(msgs) - 1, Why: "other traffic replayed after " + why})
-			}
-		}
-		tolOf := map[string]time.Duration{}
-		for _, s := range sites {
-			tolOf[s.Type] = s.Tolerance
-		}
-		for _, m := range msgs {
+		tl := replaytl.Gen(t, sites, nil)
+		for _, m := range tl.Msgs {
 			if err := c26Sign(m); err != nil {
 				t.Fatalf("harness: sign: %v", err)
 			}
 		}
-		sort.SliceStable(events, func(i, j int) bool { return events[i].At < events[j].At })
-
-		accepts := make([]int, len(msgs))
-		firstAccept := make([]int64, len(msgs))
-		var log []string
-		nontrivial := false
-		for _, ev := range events {
-			m := msgs[ev.Msg]
-			mt := tolOf[m.Type]
-			inWin := c26InWindow(ev.At, m.TS, mt)
-			if excl && accepts[ev.Msg] > 0 && inWin && ev.At-firstAccept[ev.Msg] >= int64(mt) {
-				// shape of the open finding: replay at least one tolerance after the
-				// accepted original while the signed timestamp is still fresh
-				verifkit.CountExcluded(kfC26TTL)
-				continue
-			}
-			VerifSetClock(time.Unix(0, ev.At))
-			ok := c26Deliver(nc, m, mt)
-			log = append(log, fmt.Sprintf("%s %-16s %s/%s ts=now%+ds (%s) -> %v", c26Fmt(ev.At), m.Type, m.Sender, m.Nonce[:4],
-				m.TS-ev.At/c26Sec, ev.Why, map[bool]string{true: "ACCEPTED", false: "rejected"}[ok]))
-			if ok && !inWin {
-				t.Fatalf("VERIF-FAIL class=C26/accepted-outside-window type=%s tolerance=%v ttl=%v: accepted with |now-ts|=%ds\ntimeline (t0=%s):\n  %s",
-					m.Type, mt, ttl, ev.At/c26Sec-m.TS, c26Fmt(t0), strings.Join(log, "\n  "))
-			}
-			if accepts[ev.Msg] > 0 && inWin {
-				nontrivial = true
-			}
-			if ok {
-				accepts[ev.Msg]++
-				if accepts[ev.Msg] == 1 {
-					firstAccept[ev.Msg] = ev.At
-				}
-				if accepts[ev.Msg] > 1 {
-					t.Fatalf("VERIF-FAIL class=C26/replay-accepted type=%s (tolerance %s=%v, nonce TTL %s=%v, %s): the same signed request was accepted twice, %v apart\ntimeline (t0=%s):\n  %s",
-						m.Type, site.TolExpr, mt, site.TTLExpr, ttl, site.Origin, time.Duration(ev.At-firstAccept[ev.Msg]), c26Fmt(t0), strings.Join(log, "\n  "))
-				}
-			}
+		VerifSetClock(time.Unix(0, tl.CacheBorn))
+		nc := NewNonceCache(tl.Site.TTL)
+		res := tl.Run(excl, func(ns int64) { VerifSetClock(time.Unix(0, ns)) },
+			func(m *c26Msg, tol time.Duration) bool { return c26Deliver(nc, m, tol) })
+		for i := 0; i < res.Excluded; i++ {
+			verifkit.CountExcluded(kfC26TTL)
+		}
+		if res.FailClass != "" {
+			t.Fatalf("VERIF-FAIL class=C26/%s %s\n%s", res.FailClass, res.FailText, res.Describe(tl))
 		}
 		verifkit.Eval()
-		verifkit.Class("type/" + site.Type)
-		if nontrivial {
-			verifkit.NonTrivial(strings.Join(log, "|"))
-			verifkit.Class("replay-inside-window")
+		verifkit.Class("type/" + tl.Site.Type)
+		if res.NonTrivial {
+			verifkit.NonTrivial(strings.Join(res.Log, "|"))
+			verifkit.Class("replay-inside-window/" + tl.Site.Type)
 			if verifkit.SampleCount() < 3 {
-				verifkit.Sample(map[string]any{"type": site.Type, "tolerance": tol.String(), "nonce_ttl": ttl.String(), "timeline": log})
+				verifkit.Sample(map[string]any{"type": tl.Site.Type, "tolerance": tl.Site.Tolerance.String(), "nonce_ttl": tl.Site.TTL.String(), "timeline": res.Log})
 			}
 		}
 	})
@@ -306,7 +137,7 @@ func TestVerifKF_C26_ttl_shorter_than_timestamp_lifetime(t *testing.T) {
 	defer VerifSetClock(time.Time{})
 	var hit []string
 	for _, site := range verifC26Sites {
-		t0 := c26Base * c26Sec
+		t0 := c26Base * int64(time.Second)
 		VerifSetClock(time.Unix(0, t0))
 		nc := NewNonceCache(site.TTL)
 		m := &c26Msg{Type: site.Type, Sender: "node-a", Nonce: "4e6f6e6365", TS: c26Base + int64(site.Tolerance/time.Second), Payload: "p0"}
